@@ -627,6 +627,26 @@ pub async fn arun_read_script(
                 let r = handle.read_to_end(&mut v).await;
                 out.push(r.map(|n| (n as u64, v)).map_err(|e| format!("{:?}", e.kind())));
             }
+            ROp::Drain(k) => {
+                let piece = drain_piece(*k, len);
+                let mut v = vec![];
+                let mut buf = [0u8; 2048];
+                let mut err = None;
+                for _ in 0..400_000 {
+                    match handle.read(&mut buf[..piece]).await {
+                        Ok(0) => break,
+                        Ok(n) => v.extend_from_slice(&buf[..n.min(piece)]),
+                        Err(e) => {
+                            err = Some(format!("{:?}", e.kind()));
+                            break;
+                        }
+                    }
+                }
+                out.push(match err {
+                    Some(e) => Err(e),
+                    None => Ok((v.len() as u64, v)),
+                });
+            }
             ROp::Read(k, n) | ROp::ReadExact(k, n) => {
                 let want = read_size(*k, *n, len as usize);
                 let mut buf = vec![0u8; want];
